@@ -7,6 +7,7 @@ from ..core import AnalysisError, call_name, dotted, kwarg, norm, walk_no_nested
 from ..guards import A, And, Not, Or, T, implies, path_formula, show_formula, sites
 from ..registry import describe, rule
 from ..util import calls_named, const_str, returns_of
+from .. import tmatch as tm
 
 EI = "pgmpy/inference/ExactInference.py"
 IB = "pgmpy/inference/base.py"
@@ -66,9 +67,12 @@ def norm_rule(rc):
         cand = []
         for s in sites(f.node, lambda n: isinstance(n, ast.Return) and n.value is not None):
             v = s.node.value
-            if isinstance(v, ast.Name) and (v.id in dict_names or v.id == "result" and q.endswith("query")):
-                # `return result` after the classic branch: the value comes from _variable_elimination (checked there)
-                if v.id == "result" and not any(isinstance(t, ast.Compare) and dotted(t.left) == "elimination_order" and pol for t, pol in s.conds):
+            if isinstance(v, ast.Name):
+                from_callee = any(isinstance(n, ast.Assign) and dotted(n.targets[0]) == v.id and isinstance(n.value, ast.Call) and call_name(n.value) == "_variable_elimination"
+                                  for n in walk_no_nested(f.node))
+                # a name that (also) holds the classic branch's result, returned outside the greedy branch: the value comes
+                # from _variable_elimination and is checked there
+                if from_callee and not any(isinstance(t, ast.Compare) and dotted(t.left) == "elimination_order" and pol for t, pol in s.conds):
                     continue
                 if v.id in dict_names:
                     continue
@@ -100,28 +104,35 @@ def labels(rc):
     if len(ctor) != 1:
         raise AnalysisError("VariableElimination.query: result factor construction not found")
     c = ctor[0]
-    a = [norm(x) for x in c.args[:3]]
-    sn = kwarg(c, "state_names")
-    rc.ob(f"result factor DiscreteFactor({', '.join(a)}, state_names={norm(sn) if sn is not None else None})")
-    if a[0] != "variables" or a[1] != "result_values.shape" or a[2] != "result_values":
-        rc.fail(f, c, "the result factor must be built over the requested `variables` with the contracted values and their shape", construct="result factor args")
-    okn = isinstance(sn, ast.DictComp) and dotted(sn.generators[0].iter) == "variables" and norm(sn.key) == dotted(sn.generators[0].target) \
-        and norm(sn.value) in (f"model_reduced.states[{dotted(sn.generators[0].target)}]", f"self.model.states[{dotted(sn.generators[0].target)}]")
-    if not okn:
-        rc.fail(f, c, "the result must be labelled with the model's own state names for exactly the query variables", construct="result state_names")
+    b = tm.is_(c, "DiscreteFactor(variables, _RV.shape, _RV, state_names={_v: _M.states[_v] for _v in variables})")
+    rc.ob(f"result factor {norm(c, 150)}")
+    if b is None:
+        b2 = tm.is_(c, "DiscreteFactor(variables, _RV.shape, _RV, state_names=__SN)") or tm.is_(c, "DiscreteFactor(variables, _RV.shape, _RV)")
+        if b2 is None:
+            rc.fail(f, c, "the result factor must be built over the requested `variables` with the contracted values and their shape", construct="result factor args")
+        else:
+            rc.fail(f, c, "the result must be labelled with the model's own state names for exactly the query variables", construct="result state_names")
+        b = b2 or {}
+    elif b["_M"] not in ("model_reduced",) and not tm.has(f.node, "_M, evidence = self._prune_bayesian_model(variables, evidence)", {"_M": b["_M"]}) \
+            and not tm.has(f.node, "_M = self.model", {"_M": b["_M"]}):
+        rc.fail(f, c, "the state names must come from the (pruned) model of this query", construct="result state_names model")
     con = [x for x in repo.calls_in(f) if call_name(x) == "contract"]
     if not con:
         raise AnalysisError("VariableElimination.query: contraction call not found")
     out = con[0].args[-1] if con[0].args else None
-    oko = isinstance(out, ast.ListComp) and dotted(out.generators[0].iter) == "variables" and norm(out.elt) == f"var_int_map[{dotted(out.generators[0].target)}]"
+    oko = tm.is_(out, "[_VM[_v] for _v in variables]") is not None
     rc.ob(f"einsum output subscripts {norm(out) if out is not None else None}")
     if not oko:
         rc.fail(f, con[0], "the contraction's output axes must follow the same `variables` list that labels the result", construct="einsum output order")
+    rv = b.get("_RV")
+    if rv and not tm.has(f.node, "_RV = contract(*__A)", {"_RV": rv}) and not any(dotted(getattr(con[0], "_parent", None).targets[0]) == rv for _ in [0] if isinstance(getattr(con[0], "_parent", None), ast.Assign)):
+        rc.fail(f, c, "the result values must be the contraction's output", construct="result values source")
     # each factor's subscripts: its own variables minus evidence, in the factor's axis order, values reduced at the evidence states
-    t = norm(f.node, 100000)
-    if t.count("for var in phi.variables if var not in evidence.keys()") < 2 or "phi.values[reduce_indexes[index]]" not in t:
+    n_sub = len(tm.find_all(f.node, "[_VM[_v] for _v in _P.variables if _v not in evidence.keys()]")) + len(tm.find_all(f.node, "[_VM[_v] for _v in _P.variables if _v not in evidence]"))
+    n_val = len(tm.find_all(f.node, "_P.values[_RI[_i]]"))
+    if n_sub < 2 or n_val < 2:
         rc.fail(f, f.node, "each factor enters the contraction with its values sliced at the evidence states and subscripts for its remaining variables in axis order", construct="factor subscripts")
-    if "phi.get_state_no(phi.variables[index], evidence[phi.variables[index]])" not in t.replace("\n", " ").replace("  ", " "):
+    if not tm.has(f.node, "_IX[_i] = _P.get_state_no(_P.variables[_i], evidence[_P.variables[_i]])"):
         rc.fail(f, f.node, "evidence states must be translated with the factor's own state names", construct="evidence state numbers")
     rc.ob("factor operands: sliced at evidence, subscripts in axis order")
 
@@ -135,9 +146,11 @@ def disjoint(rc):
     repo = rc.repo
     for cname, m in ENTRY:
         f = repo.func(EI, f"{cname}.{m}")
-        d = sorted([n for n in walk_no_nested(f.node) if isinstance(n, ast.Assign) and dotted(n.targets[0]) == "common_vars"], key=lambda n: n.lineno)
-        rs = sorted([s for s in sites(f.node, lambda n: isinstance(n, ast.Raise)) if any(dotted(t) == "common_vars" and pol for t, pol in s.conds)], key=lambda s: s.node.lineno)
-        okd = d and "intersection(" in norm(d[0].value) and "evidence" in norm(d[0].value) and "variables" in norm(d[0].value)
+        d = sorted([(n, b) for n, b in tm.find_all(f.node, "_C = set(__EV).intersection(__VARS)") if "evidence" in norm(b["__EV"]) and "variables" in norm(b["__VARS"])],
+                   key=lambda x: x[0].lineno)
+        cname_ = d[0][1]["_C"] if d else None
+        rs = sorted([s for s in sites(f.node, lambda n: isinstance(n, ast.Raise)) if any(dotted(t) == cname_ and pol for t, pol in s.conds)], key=lambda s: s.node.lineno)
+        okd = bool(d)
         work = [c for c in repo.calls_in(f) if call_name(c) in ("_prune_bayesian_model", "_virtual_evidence", "_query", "_variable_elimination", "_initialize_structures", "run",
                                                                 "_RecursiveMessageSchedulingQuery")]
         first_work = min([c.lineno for c in work], default=10 ** 9)
@@ -153,11 +166,15 @@ def order(rc):
     repo = rc.repo
     f = repo.func(EI, "VariableElimination._get_elimination_order")
     d = {n.targets[0].id: n.value for n in walk_no_nested(f.node) if isinstance(n, ast.Assign) and isinstance(n.targets[0], ast.Name)}
-    te = norm(d.get("to_eliminate", ast.Constant(value=None)), 300)
-    rc.ob(f"to_eliminate = {te}")
-    if not (te.startswith("set(self.variables) - set(variables) - set(evidence.keys()") or te == "set(self.variables) - set(variables) - set(evidence)"):
+    te_b = tm.find(f.node, "_TE = set(self.variables) - set(variables) - set(evidence.keys() if evidence else [])")[1] or tm.find(f.node, "_TE = set(self.variables) - set(variables) - set(evidence)")[1]
+    rc.ob(f"to_eliminate = model variables - query - evidence: {te_b is not None}")
+    if te_b is None:
         rc.fail(f, f.node, "variables to eliminate = model variables minus query minus evidence", construct="to_eliminate")
-    tbl = d.get("heuristic_dict")
+        return
+    TE = te_b["_TE"]
+    tbls = [v for v in d.values() if isinstance(v, ast.Dict) and v.keys and all(isinstance(k, ast.Constant) and isinstance(k.value, str) for k in v.keys) and any(dotted(x) == "MinFill" for x in v.values)]
+    tbl = tbls[0] if tbls else None
+    tname = [k for k, v in d.items() if v is tbl][0] if tbl is not None else None
     want = {"weightedminfill": "WeightedMinFill", "minneighbors": "MinNeighbors", "minweight": "MinWeight", "minfill": "MinFill"}
     if not isinstance(tbl, ast.Dict):
         raise AnalysisError("_get_elimination_order: heuristic table not found")
@@ -165,11 +182,11 @@ def order(rc):
     rc.ob(f"heuristic table {got}")
     if got != want:
         rc.fail(f, tbl, f"heuristic names must map to the heuristic of that name: {got}", construct="heuristic table")
-    look = [n for n in walk_no_nested(f.node) if isinstance(n, ast.Subscript) and dotted(n.value) == "heuristic_dict"]
+    look = [n for n in walk_no_nested(f.node) if isinstance(n, ast.Subscript) and dotted(n.value) == tname]
     if not look or norm(look[0].slice) != "elimination_order.lower()":
         rc.fail(f, f.node, "the heuristic is selected by the lower-cased name", construct="heuristic lookup")
     call = [c for c in repo.calls_in(f) if call_name(c) == "get_elimination_order"]
-    if not call or dotted(kwarg(call[0], "nodes")) != "to_eliminate":
+    if not call or dotted(kwarg(call[0], "nodes")) != TE:
         rc.fail(f, f.node, "the heuristic must order exactly the variables to eliminate", construct="heuristic nodes")
     base = repo.cls(EO, "BaseEliminationOrder")
     for name in want.values():
@@ -180,23 +197,34 @@ def order(rc):
             rc.fail(None, None, f"{name} must be a BaseEliminationOrder that overrides cost", construct=f"heuristic {name}", file=EO, func=name)
     g = repo.func(EO, "BaseEliminationOrder.get_elimination_order")
     wl = [n for n in walk_no_nested(g.node) if isinstance(n, ast.While)]
-    tw = norm(wl[0], 5000) if wl else ""
-    okw = wl and norm(wl[0].test) == "nodes" and "ordering.append(min_score_node)" in tw and "nodes.remove(min_score_node)" in tw \
-        and "self.bayesian_model.remove_node(min_score_node)" in tw and "self.moralized_model.remove_node(min_score_node)" in tw and "min(scores, key=scores.get)" in tw \
-        and "{node: self.cost(node) for node in nodes}" in tw
+    okw = False
+    if wl:
+        w = wl[0]
+        nodes_v = dotted(w.test)
+        n1, b1 = tm.find(w, "_S = {_n: self.cost(_n) for _n in _W}", {"_W": nodes_v})
+        if n1 is not None:
+            n2, b2 = tm.find(w, "_M = min(_S, key=_S.get)", {"_S": b1["_S"]})
+            if n2 is not None:
+                M = b2["_M"]
+                app = tm.find(w, "_O.append(_M)", {"_M": M})
+                okw = app[0] is not None and tm.has(w, "_W.remove(_M)", {"_W": nodes_v, "_M": M}) and tm.has(w, "self.bayesian_model.remove_node(_M)", {"_M": M}) \
+                    and tm.has(w, "self.moralized_model.remove_node(_M)", {"_M": M})
+                if okw and not any(dotted(r.value) == app[1]["_O"] for r in returns_of(g)):
+                    rc.fail(g, g.node, "the ordering must be returned", construct="return ordering")
     rc.ob(f"worklist: one minimum-cost node per round, removed from the worklist and both working graphs: {bool(okw)}")
     if not okw:
         rc.fail(g, g.node, "each round must pick the minimum-cost remaining node, append it, and remove it from the worklist AND from both working graphs (coupled update)",
                 construct="elimination worklist")
-    if not any(dotted(r.value) == "ordering" for r in returns_of(g)):
-        rc.fail(g, g.node, "the ordering must be returned", construct="return ordering")
     init = repo.func(EO, "BaseEliminationOrder.__init__")
     if "model.copy()" not in norm(init.node, 5000):
         rc.fail(init, init.node, "the heuristic must work on a copy of the model (it removes nodes)", construct="heuristic copy")
     # explicit list: overlap and completeness
     rs = sites(f.node, lambda n: isinstance(n, ast.Raise))
-    overlap = any(any("var in elimination_order" in norm(t) and pol for t, pol in s.conds) for s in rs)
-    complete = any(any(norm(t) == "to_eliminate != set(elimination_order)" and pol for t, pol in s.conds) for s in rs)
+    def _ov(t):
+        b = tm.is_(t, "any((_v in elimination_order for _v in __S))")
+        return b is not None and "variables" in norm(b["__S"], 300) and "evidence" in norm(b["__S"], 300)
+    overlap = any(any(_ov(t) and pol for t, pol in s.conds) for s in rs)
+    complete = any(any(norm(t) == f"{TE} != set(elimination_order)" and pol for t, pol in s.conds) for s in rs)
     rc.ob(f"explicit order: overlap rejected {overlap}, incompleteness rejected {complete}")
     if not overlap:
         rc.fail(f, f.node, "an explicit order containing query or evidence variables must be rejected", construct="explicit overlap")
@@ -204,9 +232,14 @@ def order(rc):
         rc.fail(f, f.node, "an explicit order that does not cover exactly the variables to eliminate must be rejected", construct="explicit completeness")
     # the loop eliminates each variable of the order exactly once
     ve = repo.func(EI, "VariableElimination._variable_elimination")
-    tv = norm(ve.node, 100000)
-    okl = "for var in pbar" in tv and "getattr(phi, operation)([var], inplace=False)" in tv and "del working_factors[var]" in tv and "eliminated_variables.add(var)" in tv \
-        and "if not set(factor.variables).intersection(eliminated_variables)" in tv
+    okl = False
+    for lp in [n for n in walk_no_nested(ve.node) if isinstance(n, ast.For) and isinstance(n.target, ast.Name)]:
+        v_ = lp.target.id
+        n1, b1 = tm.find(lp, "_P = getattr(_P, operation)([_v], inplace=False)", {"_v": v_})
+        if n1 is None:
+            continue
+        okl = tm.has(lp, "del _WF[_v]", {"_v": v_}) and tm.has(lp, "_EL.add(_v)", {"_v": v_}) and tm.has(lp, "_P = factor_product(*_F)", {"_P": b1["_P"]}) \
+            and bool(tm.find_all(lp, "not set(_f.variables).intersection(_EL)"))
     rc.ob(f"elimination loop: product of the live factors of var, eliminate var out of place, retire var: {okl}")
     if not okl:
         rc.fail(ve, ve.node, "each step must multiply the live factors mentioning the variable, eliminate exactly that variable (out of place) and retire it", construct="elimination loop")
@@ -253,35 +286,38 @@ def once(rc):
 def prune(rc):
     repo = rc.repo
     f = repo.func(IB, "Inference._prune_bayesian_model")
-    t = norm(f.node, 100000)
     at = [c for c in repo.calls_in(f) if call_name(c) == "active_trail_nodes"]
     ok1 = at and norm(kwarg(at[0], "variables")) == "variables" and norm(kwarg(at[0], "observed")) == "list(evidence.keys())" and norm(kwarg(at[0], "include_latents")) == "True"
     rc.ob(f"prune: {norm(at[0], 120) if at else None}")
     if not ok1:
         rc.fail(f, at[0] if at else f.node, "pruning must keep every node d-connected to the query given the evidence, latent nodes included", construct="prune active trails")
-    ok2 = "set.union(*d_connected.values()).union(evidence.keys())" in t
-    if not ok2:
+    n, b = tm.find(f.node, "_D = set.union(*_D.values()).union(evidence.keys())")
+    if n is None:
         rc.fail(f, f.node, "the evidence nodes themselves must be kept", construct="prune keeps evidence")
-    ok3 = "get_ancestral_graph(list(variables) + list(evidence.keys()))" in t
+        return
+    D = b["_D"]
+    ok3 = tm.has(f.node, "_G = _G.get_ancestral_graph(list(variables) + list(evidence.keys()))")
     rc.ob(f"prune: ancestral graph of query + evidence: {ok3}")
     if not ok3:
         rc.fail(f, f.node, "the model is reduced to the ancestral graph of query and evidence variables", construct="prune ancestral")
-    ok4 = "cpd.marginalize(scope_diff, inplace=False)" in t and "scope_diff = set(cpd.scope()) - set(bn.nodes())" in t
+    n, b = tm.find(f.node, "_SD = set(_c.scope()) - set(_G.nodes())")
+    ok4 = n is not None and tm.has(f.node, "_L.append(_c.marginalize(_SD, inplace=False))", {"_c": b["_c"], "_SD": b["_SD"]})
     if not ok4:
         rc.fail(f, f.node, "CPDs whose parents were pruned must be marginalised over exactly the pruned parents, out of place", construct="prune cpds")
-    ok5 = "evidence = {var: state for var, state in evidence.items() if var in d_connected}" in t
+    ok5 = tm.has(f.node, "evidence = {_v: _s for _v, _s in evidence.items() if _v in _D}", {"_D": D})
     if not ok5:
         rc.fail(f, f.node, "evidence on pruned nodes must be dropped consistently with the pruned model", construct="prune evidence")
     v = repo.func(IB, "Inference._virtual_evidence")
-    tv = norm(v.node, 100000)
-    okv = "vstack((cpd.values, 1 - cpd.values))" in tv and "evidence=[var]" in tv and "variable_card=2" in tv and "cpd.state_names[var]" in tv and "bn = self.model.copy()" in tv \
-        and "bn.add_edge(var, new_var)" in tv
+    nb, bb = tm.find(v.node, "_B = self.model.copy()")
+    okv = nb is not None and bool(tm.find_all(v.node, "__F.vstack((_c.values, 1 - _c.values))", nested=True)) and tm.has(v.node, "_B.add_edge(_x, _nx)", {"_B": bb["_B"]}) \
+        and any(norm(kwarg(c, "variable_card")) == "2" and tm.is_(kwarg(c, "evidence"), "[_x]") is not None and "state_names[" in norm(kwarg(c, "state_names") or ast.Constant(value=None), 300)
+                for c in repo.calls_in(v) if call_name(c) == "TabularCPD")
     rc.ob(f"virtual evidence: binary child with rows (likelihood, 1 - likelihood) on a copy of the model: {okv}")
     if not okv:
         rc.fail(v, v.node, "virtual evidence on X must become a binary child of X whose first row is the given likelihood, on a COPY of the model", construct="virtual evidence encoding")
     q = repo.func("pgmpy/inference/ExactInference.py", "VariableElimination.query")
-    tq = norm(q.node, 100000)
-    if "{'__' + cpd.variables[0]: 0 for cpd in virtual_evidence}" not in tq or "evidence={**evidence, **virt_evidence}" not in tq:
+    nq, bq = tm.find(q.node, "_VE = {'__' + _c.variables[0]: 0 for _c in virtual_evidence}")
+    if nq is None or not any(tm.is_(kwarg(c, "evidence"), "{**evidence, **_VE}", {"_VE": bq["_VE"]}) is not None for c in repo.calls_in(q) if call_name(c) == "query"):
         rc.fail(q, q.node, "the virtual-evidence children must be observed in state 0 in addition to the user's evidence", construct="virtual evidence observed")
     ck = repo.func(IB, "Inference._check_virtual_evidence")
     if len([n for n in walk_no_nested(ck.node) if isinstance(n, ast.Raise)]) < 4:
